@@ -96,11 +96,26 @@ pub struct Bytes { pub ghost data: Seq<u8> }
 impl Bytes {
     #[verifier::external_body]
     pub fn as_ref(&self) -> (r: &[u8]) ensures r@ == self.data { unimplemented!() }
-    /// `Bytes::from(&'static str)`
-    #[verifier::external_body]
-    pub fn from(s: &'static str) -> (r: Bytes) ensures r.data == s.spec_bytes() { unimplemented!() }
     #[verifier::external_body]
     pub fn new() -> (r: Bytes) ensures r.data == Seq::<u8>::empty() { unimplemented!() }
+}
+
+/// `Bytes::from(&'static str)` and `Bytes::from(Vec<u8>)`: the bytes of the argument
+impl vstd::std_specs::convert::FromSpecImpl<&'static str> for Bytes {
+    open spec fn obeys_from_spec() -> bool { true }
+    open spec fn from_spec(v: &'static str) -> Self { Bytes { data: v.spec_bytes() } }
+}
+impl From<&'static str> for Bytes {
+    #[verifier::external_body]
+    fn from(s: &'static str) -> (r: Bytes) { unimplemented!() }
+}
+impl vstd::std_specs::convert::FromSpecImpl<Vec<u8>> for Bytes {
+    open spec fn obeys_from_spec() -> bool { true }
+    open spec fn from_spec(v: Vec<u8>) -> Self { Bytes { data: v@ } }
+}
+impl From<Vec<u8>> for Bytes {
+    #[verifier::external_body]
+    fn from(v: Vec<u8>) -> (r: Bytes) { unimplemented!() }
 }
 
 /// http::Request<B>
